@@ -369,6 +369,15 @@ func (x *X) external(fr *Frame, st *State, fn *ssa.Function, args []SV, cc *ssa.
 		return []SV{mkIte(mkEq(a, b), x.enc.intConst(0, it), mkIte(app(SBool, "strlt", a, b), x.enc.intConst(-1, it), x.enc.intConst(1, it)))}
 	case "strings.HasPrefix", "strings.HasSuffix", "strings.EqualFold", "strings.Contains", "strings.ToLower", "strings.ToUpper", "strings.TrimSpace", "strings.Index", "strings.IndexByte", "strings.ContainsRune", "strings.IndexRune", "strings.Repeat", "strings.TrimPrefix", "strings.TrimSuffix", "strings.ContainsAny", "strings.LastIndex":
 		rets := pureUF("pure function of its arguments")
+		if name == "strings.ToLower" {
+			// lower-case ASCII literals are fixed points
+			for lit, t := range x.enc.strLits {
+				if strings.ToLower(lit) == lit {
+					x.vc.assume(mkEq(x.ufS("ext_strings_ToLower_r0", SStr, t), t))
+				}
+			}
+			x.enc.assumption("strings.ToLower maps a lower-case ASCII string to itself")
+		}
 		if name == "strings.HasPrefix" {
 			// prefix relation facts: reflexive, length-monotone
 			r := rets[0].(Term)
@@ -425,6 +434,26 @@ func (x *X) external(fr *Frame, st *State, fn *ssa.Function, args []SV, cc *ssa.
 		return rets
 	case "unicode/utf8.RuneLen", "unicode/utf8.ValidRune", "unicode/utf16.IsSurrogate", "unicode/utf16.DecodeRune", "unicode/utf8.RuneCountInString", "unicode.IsSpace", "unicode.IsDigit", "unicode.IsLetter", "github.com/smasher164/xid.Start", "github.com/smasher164/xid.Continue", "unicode/utf8.ValidString", "unicode/utf8.RuneError":
 		return pureUF("pure function of its arguments")
+	case "unicode/utf8.DecodeRune":
+		s := argT(0)
+		_, _, ln, _ := x.sliceParts(s)
+		r := x.vc.fresh("rune", x.enc.intSortW(32))
+		w := x.vc.fresh("width", isz)
+		x.vc.assume(x.enc.rangeFact(r, types.Typ[types.Int32]))
+		x.vc.assume(mkAnd(x.ile(x.ic(0), w), x.ile(w, x.ic(4)), x.ile(w, ln)))
+		x.vc.assume(mkImplies(x.ilt(x.ic(0), ln), x.ile(x.ic(1), w)))
+		x.vc.assume(x.enc.intCmp(token.GEQ, r, x.enc.intConst(0, types.Typ[types.Int32]), types.Typ[types.Int32]))
+		x.enc.assumption("utf8.DecodeRune returns a non-negative rune and a width 1..4 not exceeding the input length (0 only for empty input)")
+		return []SV{r, w}
+	case "unicode/utf8.EncodeRune":
+		n := x.vc.fresh("enclen", isz)
+		x.vc.assume(mkAnd(x.ile(x.ic(1), n), x.ile(n, x.ic(4))))
+		s := argT(0)
+		base, _, _, _ := x.sliceParts(s)
+		k := x.elemsKey(x.enc.intSortW(8))
+		st.mem[k] = x.vc.define("h", mkStore(x.get(st, k), base, x.vc.fresh("encoded", arraySort(isz, x.enc.intSortW(8)))))
+		x.enc.assumption("utf8.EncodeRune writes 1..4 bytes into its buffer and returns their number")
+		return []SV{n}
 	case "unicode/utf8.DecodeRuneInString":
 		rets := pureUF("pure; returns (rune, width) with 0 <= width <= 4, width >= 1 for non-empty input, width <= len(s)")
 		w := rets[1].(Term)
